@@ -578,6 +578,45 @@ def atCBlock (size index : Nat) : Option Nat :=
     else if blk = q then (if index - blk * 226 < size % 226 then some index else none)
     else none
 
+/-! ### row layout of an image: alignment and row stride (image.hpp: `_align_in_bytes`, `get_row_size_in_memunits`)
+
+  The cell memory above abstracts from bytes (one cell = one channel slot), so the byte layout is modelled separately:
+  `Lay` = (dimensions, row alignment the image was last built with, row stride in memory units). -/
+
+/-- `align(val, alignment)` of utilities.hpp -/
+def alignUp (v a : Nat) : Nat := v + (a - v % a) % a
+
+/-- `image::get_row_size_in_memunits(width)` with `_align_in_bytes = a`: memory units are bytes (one plane's row for
+    planar images), bits for bit-aligned images; alignment 0 = rows packed -/
+def rowUnits (f : Fmt) (w a : Nat) : Nat :=
+  match f.org with
+  | .interleaved => let sz := w * (f.nc * (f.bits / 8)); if a > 0 then alignUp sz a else sz
+  | .planar => let sz := w * (f.bits / 8); if a > 0 then alignUp sz a else sz
+  | .bitAligned => let sz := w * (f.nc * f.bits); if a > 0 then alignUp sz (a * 8) else sz
+
+structure Lay where
+  w : Nat
+  h : Nat
+  align : Nat
+  stride : Nat
+  deriving DecidableEq, Repr
+
+/-- `image(w, h, alignment)` -/
+def Lay.make (f : Fmt) (w h a : Nat) : Lay := ⟨w, h, a, rowUnits f w a⟩
+
+/-- `image::recreate(dims, alignment)`: nothing happens only when dimensions AND alignment are unchanged; otherwise the
+    alignment is stored and the view is rebuilt (in the old buffer or a new one) with the row size of the new alignment.
+    A call is (width, height, alignment). -/
+def Lay.recreate (f : Fmt) (l : Lay) (c : Nat × Nat × Nat) : Lay :=
+  if l.w = c.1 ∧ l.h = c.2.1 ∧ l.align = c.2.2 then l else Lay.make f c.1 c.2.1 c.2.2
+
+/-- layout state of a run-time typed image -/
+abbrev AnyLay := Σ _f : Fmt, Lay
+
+/-- `any_image::recreate(dims, alignment)` = `visit(recreate_image_fnobj(dims, alignment))`: the held image's
+    `recreate(dims, alignment)` — BOTH arguments are forwarded, unconditionally -/
+def AnyLay.recreate (x : AnyLay) (c : Nat × Nat × Nat) : AnyLay := ⟨x.1, x.2.recreate x.1 c⟩
+
 /-! ### defects of the tree under test that the model reproduces (see known_findings.json) -/
 
 /-- lifted operations whose `any_image_view` overload does not compile on the tree under test and for which the
